@@ -37,11 +37,12 @@ def plan(tier):
             shard("struct_b", 4, Keys=q(["k2", "r1", "r2", "r4"]), Entries=q(["signwithsm2"]), UidLens=S([0]), MsgLens=S([33]), MutSel=q(M_STRUCT)),
             shard("combos_a", 4, Keys=q(["k1", "r3", "k2", "r4"]), Entries=q(["signasn1_gm", "legacy_signwithsm2"]), UidLens=S([0, 1, 16]), MsgLens=S([0, 1, 64, 1024])),
             shard("combos_b", 4, Keys=q(["nm2", "r1", "r2", "short"]), Entries=q(["sign_gm", "sign_nil"]), UidLens=S([0, 1, 16]), MsgLens=S([0, 1, 64, 1024])),
-            shard("ctx", 4, Keys=q(["r1", "k2"]), Entries=q(["signasn1_gm"]), UidLens=S([0, 16]), MsgLens=S([1, 64, 1024]), MutSel=q(["ctx"])),
-            shard("entries", 4, Keys=q(["r1", "nm2"]), Routes=q(R_ALL), Entries=q(E_ALL), UidLens=S([0, 16]), MsgLens=S([32]), Skews=S([0, 1])),
-            shard("hist", 4, Keys=q(["r2", "nm2", "k1"]), Routes=q(["struct", "sec1"]), Entries=q(["sign_gm", "sign_nil", "legacy_sign", "signwithsm2"]), MsgLens=S([16]), Skews=S([1]), MaxSigns=3),
-            shard("crafts", 4, Keys=q(["r1", "k2", "nm2"]), Entries=q(E_DIG), Crafts=q(CRAFTS), Skews=S([0, 1]), MsgLens=S([8])),
-            shard("bad", 3, Keys=q(BAD), Routes=q(["struct", "fromec", "sec1"]), Entries=q(E_ALL), MaxSigns=3),
+            shard("ctx", 4, Keys=q(["r1"]), Entries=q(["signasn1_gm"]), UidLens=S([0, 16]), MsgLens=S([1, 64, 1024]), MutSel=q(["ctx"])),
+            shard("entries", 4, Keys=q(["r1"]), Routes=q(R_ALL), Entries=q(E_ALL), UidLens=S([0, 16]), MsgLens=S([32]), Skews=S([0, 1])),
+            shard("hist", 4, Keys=q(["r2", "nm2"]), Routes=q(["struct", "sec1"]), Entries=q(["sign_gm", "sign_nil", "legacy_sign"]), MsgLens=S([16]), Skews=S([1]), MaxSigns=3),
+            shard("crafts", 4, Keys=q(["r1", "nm2"]), Entries=q(E_DIG), Crafts=q(CRAFTS), Skews=S([0, 1]), MsgLens=S([8])),
+            shard("bad", 3, Keys=q(BAD), Routes=q(["struct", "fromec", "sec1"]), MaxSigns=3,
+                  Entries=q(["signasn1_gm", "sign_nil", "signwithsm2", "legacy_sign", "sign_default", "legacy_signwithsm2"])),
             shard("uid8191", 1, Keys=q(["r4"]), Entries=q(["signwithsm2"]), UidLens=S([8191])),
         ]
     keys = ["k1", "k2", "nm2", "r1", "r2", "r3", "r4", "short"]
@@ -108,11 +109,13 @@ def run(ctx):
                          invariants=("TypeOK", "HistBadKeyAlwaysErr"),
                          properties=("Complete", "OnlyHonestAccepted", "BadKeyAlwaysErr", "GoodKeyNeverErr", "IntsAgree")))
     # small instance on which every Verify reply is recomputed as Accept for every applicable entry point
-    _, _, rc = shard("refine", 2, Keys=q(["r1"]), Entries=q(["sign_gm"]), MsgLens=S([3]), MutSel=q(["none", "enc", "int", "tag"]))
-    jobs.append(dict(module="MC_C06", name="MC_C06_refine", view="View", workers=2, timeout=1200, heap="2g",
+    # and the block-wise digest the candidates carry is compared with algo/SM2Scheme's Digest in every state
+    _, _, rc = shard("refine", 3, Keys=q(["r1"]), Entries=q(["sign_gm", "sign_nil"]), UidLens=S([17]), MsgLens=S([70]), MutSel=q(["none", "enc", "ctx"]))
+    jobs.append(dict(module="MC_C06", name="MC_C06_refine", view="View", workers=3, timeout=1200, heap="2g",
                      constants=dict(rc, Seed=ctx.seed, OutFile=core.tla_str(os.path.join(ctx.scratch, "c06refine.ndjson"))),
-                     invariants=("TypeOK",), properties=("Sound", "Complete", "OnlyHonestAccepted")))
+                     invariants=("TypeOK", "DigestRefines"), properties=("Sound", "Complete", "OnlyHonestAccepted")))
     jobs.append(dict(module="KAT_Der", name="KAT_Der", constants={}, init_next=("Init", "Next"), workers=1, timeout=600, heap="1g"))
+    jobs.append(dict(module="KAT_Sm2KeyObj", name="KAT_Sm2KeyObj", constants={}, init_next=("Init", "Next"), workers=1, timeout=900, heap="1g"))
     # documentation: the lazy-init bookkeeping of sm2_dsa.go as a model; with the proposed patch the invariants hold
     jobs.append(dict(module="Sm2KeyImpl", name="Sm2KeyImpl_fixed", constants=dict(Fixed="TRUE"), invariants=("NoPanic", "BadKeyAlwaysErr", "RefinesObj"),
                      workers=1, timeout=300, heap="1g"))
